@@ -195,7 +195,7 @@ func modelsC11(tier string) ([]*PktModel, []int) {
 	var depth []int
 	d := 6
 	if tier == "thorough" {
-		d = 9
+		d = 10
 	}
 	for _, n := range names {
 		rules := ruleSets[n]
